@@ -34,7 +34,13 @@ pub fn analyze_order(egraph: &EGraph, enode: &Expr) -> OrderKey {
         Order([keys, _]) | TopN([_, _, keys, _]) => x(keys).clone(),
         // plans that preserve order
         Proj([_, c]) | Filter([_, c]) | Window([_, c]) | Limit([_, _, c]) => x(c).clone(),
-        MergeJoin([_, _, _, _, _, r]) => x(r).clone(),
+        // (a left or full outer join pads unmatched left rows with NULL right keys wherever the left
+        // key puts them: its output is not ordered by the right input's keys)
+        MergeJoin([t, _, _, _, _, r])
+            if matches!(egraph[*t].nodes[0], Expr::Inner | Expr::RightOuter) =>
+        {
+            x(r).clone()
+        }
         SortAgg([_, _, c]) => x(c).clone(),
         // unordered for other plans
         _ => Box::new([]),
